@@ -210,6 +210,7 @@ def campaign(pid, plans, what, extra_violation=None):
     build_harness("os")
     violations, distinct, samples = [], set(), []
     states = transitions = replayed = unmatched = 0
+    protocol_lost = []
     rnd = random.Random(seed())
     for pl in plans:
         t0 = time.time()
@@ -239,7 +240,23 @@ def campaign(pid, plans, what, extra_violation=None):
         cases = [{"msgs": pl["msgs"], "plan": pl["plan"], "procs": list(pl.get("procs", pl.get("crashers", ()))),
                   "sched": s["sched"], "rlog": s["rlog"], "delivered": s["delivered"], "slog": s.get("slog", []), "falseOk": s.get("falseOk", False),
                   "tmo": timeouts(pl["plan"], s["sched"])} for s in sch]
-        verdicts = replay(cases)
+        # the first schedules tell whether the code still follows the model's system-call protocol at all; when
+        # nearly none of them can be executed as generated, the rest would only cost time (each abandoned schedule
+        # waits for its actors) and the comparison falls back to the call-level oracles
+        head = cases[:24]
+        verdicts = replay(head)
+        lost = sum(1 for c, v in zip(head, verdicts) if not judge(c, v)[1])
+        if len(cases) > len(head):
+            if lost * 10 >= len(head) * 9:
+                log("  %s: %d of the first %d schedules could not be executed as generated: the code's system-call "
+                    "sequence is not the model's; remaining %d schedules skipped" % (pl["name"], lost, len(head),
+                                                                                     len(cases) - len(head)))
+                protocol_lost.append(pl["name"])
+                cases = head
+            else:
+                verdicts += replay(cases[len(head):])
+        for i, c in enumerate(cases):
+            c["id"] = i
         nbad = 0
         for c, v in zip(cases, verdicts):
             replayed += 1
@@ -266,6 +283,8 @@ def campaign(pid, plans, what, extra_violation=None):
                    "receive plan), executed with every actor held at its system-call hooks; distinct by the sequence of "
                    "(actor, system call)",
            "samples": samples[:5]}
+    if protocol_lost:
+        cov["syscall_protocol_not_followed_in_plans"] = protocol_lost
     return {"level": "model_checking", "coverage": cov, "violations": violations}
 
 
